@@ -1,9 +1,736 @@
 package main
 
-// genFormulas: T-slp — straight-line field programs (curve addition formulas, field towers).
-// Owned by the C14 work; placeholder until then.
+// genFormulas: T-slp — the straight-line field programs of
+//
+//	pkg/base/curves/impl/points/weierstrass.go   (Add Double Neg Equal IsZero SetZero SetAffine ToAffine setFractions)
+//	pkg/base/curves/impl/points/edwards.go       (Add Double Neg Equal IsZero SetZero ToAffine setFractions)
+//	pkg/base/algebra/impl/fields/quadratic.go    (Add Sub Neg Double Mul Square)
+//	pkg/base/algebra/impl/fields/cubic.go        (Add Sub Neg Double Mul Square)
+//
+// are re-read from the current source on every run and rendered as Gallina `let` chains over an
+// abstract field record (coq/base/Fld.v) into coq/gen/Formulas.v.  The proofs of
+// coq/proofs/Curve_proofs.v are about these generated definitions.
+//
+// Accepted statement forms (anything else is an error naming the function — a broken tie,
+// never a silent skip):
+//
+//	var a, b F                      locals of the field type (F, BF)
+//	var params C                    the curve/tower parameter object (C, A)
+//	t := FP(&tf) / FP(&lhs.X)       pointer aliases
+//	R.Op(args)                      R, args: alias, FP parameter, &local, &S.Field, FP(..)/BFP(..) casts;
+//	                                Op in Add Sub Mul Square Neg Double Set SetZero SetOne Select
+//	ok = R.Equal(x) / ok = R.Inv(x) boolean results (ok := on a fresh name as well)
+//	params.MulByA/MulBy3B/AddA/AddB/MulByD/MulBy2D/MulByQuadraticNonResidue/MulByCubicNonResidue(dst, src)
+//	p.X = *x3                       field assignment from an alias
+//	return [boolean expression of Equal / IsZero / IsNonZero / & / named result]
+//
+// Pointer aliasing: the receiver may alias a struct argument (p.Add(p, q) is how the library
+// calls these), so reading S.F after the receiver's field F has been written is rejected.
+
+import (
+	"fmt"
+	"go/ast"
+	"go/parser"
+	"go/token"
+	"path/filepath"
+	"sort"
+	"strings"
+)
+
+type slpKind struct {
+	file     string   // path below the repository root
+	typ      string   // receiver type name
+	prefix   string   // Coq name prefix
+	section  string   // Coq section name
+	vars     string   // section variables
+	castOK   []string // accepted cast names
+	fieldTy  []string // names of the field element type parameter
+	paramTy  []string // names of the parameter-object type parameter
+	paramOps map[string]string
+	funcs    []string
+}
+
+var slpKinds = []slpKind{
+	{
+		file: "pkg/base/curves/impl/points/weierstrass.go", typ: "ShortWeierstrassPointImpl", prefix: "W_", section: "ShortWeierstrass",
+		vars: "(a b : F)", castOK: []string{"FP"}, fieldTy: []string{"F"}, paramTy: []string{"C"},
+		paramOps: map[string]string{"MulByA": "a * %s", "MulBy3B": "(b + b + b) * %s", "AddA": "%s + a", "AddB": "%s + b"},
+		funcs:    []string{"Add", "Double", "Neg", "Equal", "IsZero", "SetZero", "SetAffine", "ToAffine", "setFractions"},
+	},
+	{
+		file: "pkg/base/curves/impl/points/edwards.go", typ: "TwistedEdwardsPointImpl", prefix: "E_", section: "TwistedEdwards",
+		vars: "(a d : F)", castOK: []string{"FP"}, fieldTy: []string{"F"}, paramTy: []string{"C"},
+		paramOps: map[string]string{"MulByA": "a * %s", "MulByD": "d * %s", "MulBy2D": "(d + d) * %s"},
+		funcs:    []string{"Add", "Double", "Neg", "Equal", "IsZero", "SetZero", "ToAffine", "setFractions"},
+	},
+	{
+		file: "pkg/base/algebra/impl/fields/quadratic.go", typ: "QuadraticFieldExtensionImpl", prefix: "Q_", section: "QuadraticExtension",
+		vars: "(beta : F)", castOK: []string{"BFP"}, fieldTy: []string{"BF"}, paramTy: []string{"A"},
+		paramOps: map[string]string{"MulByQuadraticNonResidue": "beta * %s"},
+		funcs:    []string{"Add", "Sub", "Neg", "Double", "Mul", "Square"},
+	},
+	{
+		file: "pkg/base/algebra/impl/fields/cubic.go", typ: "CubicFieldExtensionImpl", prefix: "C_", section: "CubicExtension",
+		vars: "(xi : F)", castOK: []string{"BFP"}, fieldTy: []string{"BF"}, paramTy: []string{"A"},
+		paramOps: map[string]string{"MulByCubicNonResidue": "xi * %s"},
+		funcs:    []string{"Add", "Sub", "Neg", "Double", "Mul", "Square"},
+	},
+}
+
+type slp struct {
+	fset   *token.FileSet
+	kind   *slpKind
+	fname  string
+	fields []string // struct fields in declaration order
+
+	recv      string
+	structPar []string        // struct-typed parameters, in order
+	fpPar     []string        // field-pointer parameters, in order
+	isStruct  map[string]bool // receiver and struct parameters
+	isFP      map[string]bool
+	paramObj  map[string]bool
+	locals    map[string]bool
+	alias     map[string]string
+	env       map[string]string
+	benv      map[string]string
+	written   map[string]bool // receiver field names written so far
+	wroteFP   map[string]bool
+	recvRead  map[string]bool // receiver fields read before being written (become inputs)
+	counter   map[string]int
+	lets      []string
+	resultVar string // named boolean result, if any
+	hasResult bool
+	ret       string
+}
+
+func (s *slp) errf(n ast.Node, format string, a ...any) error {
+	return fmt.Errorf("%s.%s: %s: %s: `%s`", s.kind.typ, s.fname, s.fset.Position(n.Pos()), fmt.Sprintf(format, a...), src(s.fset, n))
+}
+
+func contains(xs []string, x string) bool {
+	for _, y := range xs {
+		if x == y {
+			return true
+		}
+	}
+	return false
+}
+
+// typeName strips pointer and type arguments: *T[...] -> T
+func typeName(e ast.Expr) string {
+	if st, ok := e.(*ast.StarExpr); ok {
+		e = st.X
+	}
+	switch t := e.(type) {
+	case *ast.IndexExpr:
+		e = t.X
+	case *ast.IndexListExpr:
+		e = t.X
+	}
+	if id, ok := e.(*ast.Ident); ok {
+		return id.Name
+	}
+	return ""
+}
+
+func (s *slp) baseName(loc string) string {
+	i := strings.Index(loc, ":")
+	return strings.ReplaceAll(loc[i+1:], ".", "_")
+}
+
+// loc resolves a pointer-valued expression to a location key.
+func (s *slp) loc(e ast.Expr) (string, error) {
+	switch x := e.(type) {
+	case *ast.Ident:
+		if l, ok := s.alias[x.Name]; ok {
+			return l, nil
+		}
+		if s.isFP[x.Name] {
+			return "ptr:" + x.Name, nil
+		}
+		return "", s.errf(e, "not a field pointer")
+	case *ast.ParenExpr:
+		return s.loc(x.X)
+	case *ast.UnaryExpr:
+		if x.Op != token.AND {
+			return "", s.errf(e, "unsupported operator")
+		}
+		switch y := x.X.(type) {
+		case *ast.Ident:
+			if s.locals[y.Name] {
+				return "loc:" + y.Name, nil
+			}
+			return "", s.errf(e, "address of an unknown local")
+		case *ast.SelectorExpr:
+			if id, ok := y.X.(*ast.Ident); ok && s.isStruct[id.Name] && contains(s.fields, y.Sel.Name) {
+				return "fld:" + id.Name + "." + y.Sel.Name, nil
+			}
+			return "", s.errf(e, "address of an unknown field")
+		}
+		return "", s.errf(e, "unsupported address expression")
+	case *ast.CallExpr:
+		if id, ok := x.Fun.(*ast.Ident); ok && contains(s.kind.castOK, id.Name) && len(x.Args) == 1 {
+			return s.loc(x.Args[0])
+		}
+		return "", s.errf(e, "unsupported call in pointer position")
+	}
+	return "", s.errf(e, "unsupported pointer expression")
+}
+
+func (s *slp) read(n ast.Node, loc string) (string, error) {
+	if v, ok := s.env[loc]; ok {
+		return v, nil
+	}
+	switch {
+	case strings.HasPrefix(loc, "loc:"):
+		return "", s.errf(n, "local %s is read before it is written", loc[4:])
+	case strings.HasPrefix(loc, "ptr:"):
+		v := loc[4:]
+		s.env[loc] = v
+		return v, nil
+	default: // fld:S.F
+		sf := strings.SplitN(loc[4:], ".", 2)
+		if sf[0] != s.recv && s.written[sf[1]] {
+			return "", s.errf(n, "%s is read after the receiver's field %s was written (the receiver may alias %s)", loc[4:], sf[1], sf[0])
+		}
+		v := sf[0] + "_" + sf[1]
+		if sf[0] == s.recv {
+			s.recvRead[sf[1]] = true
+		}
+		s.env[loc] = v
+		return v, nil
+	}
+}
+
+func (s *slp) write(loc, expr string) {
+	base := s.baseName(loc)
+	s.counter[base]++
+	name := fmt.Sprintf("%s_%d", base, s.counter[base])
+	s.lets = append(s.lets, fmt.Sprintf("let %s := %s in", name, expr))
+	s.env[loc] = name
+	if strings.HasPrefix(loc, "fld:") {
+		sf := strings.SplitN(loc[4:], ".", 2)
+		if sf[0] == s.recv {
+			s.written[sf[1]] = true
+		} else {
+			// writing through an argument struct is not something these functions do
+			s.written["!"+loc] = true
+		}
+	}
+	if strings.HasPrefix(loc, "ptr:") {
+		s.wroteFP[loc[4:]] = true
+	}
+}
+
+func (s *slp) writeBool(name, expr string) {
+	s.counter[name]++
+	n := fmt.Sprintf("%s_%d", name, s.counter[name])
+	s.lets = append(s.lets, fmt.Sprintf("let %s := %s in", n, expr))
+	s.benv[name] = n
+}
+
+// boolExpr renders a boolean (ct.Bool / ct.Choice) expression.
+func (s *slp) boolExpr(e ast.Expr) (string, error) {
+	switch x := e.(type) {
+	case *ast.ParenExpr:
+		return s.boolExpr(x.X)
+	case *ast.Ident:
+		if v, ok := s.benv[x.Name]; ok {
+			return v, nil
+		}
+		return "", s.errf(e, "unknown boolean")
+	case *ast.BinaryExpr:
+		if x.Op != token.AND && x.Op != token.OR {
+			return "", s.errf(e, "unsupported boolean operator")
+		}
+		l, err := s.boolExpr(x.X)
+		if err != nil {
+			return "", err
+		}
+		r, err := s.boolExpr(x.Y)
+		if err != nil {
+			return "", err
+		}
+		if x.Op == token.AND {
+			return "andb (" + l + ") (" + r + ")", nil
+		}
+		return "orb (" + l + ") (" + r + ")", nil
+	case *ast.CallExpr:
+		sel, ok := x.Fun.(*ast.SelectorExpr)
+		if !ok {
+			return "", s.errf(e, "unsupported boolean call")
+		}
+		rl, err := s.loc(sel.X)
+		if err != nil {
+			return "", err
+		}
+		rv, err := s.read(e, rl)
+		if err != nil {
+			return "", err
+		}
+		switch sel.Sel.Name {
+		case "Equal":
+			if len(x.Args) != 1 {
+				return "", s.errf(e, "Equal arity")
+			}
+			al, err := s.loc(x.Args[0])
+			if err != nil {
+				return "", err
+			}
+			av, err := s.read(e, al)
+			if err != nil {
+				return "", err
+			}
+			return fmt.Sprintf("feqb K %s %s", rv, av), nil
+		case "IsZero":
+			if len(x.Args) != 0 {
+				return "", s.errf(e, "IsZero arity")
+			}
+			return fmt.Sprintf("fis0 K %s", rv), nil
+		case "IsNonZero":
+			if len(x.Args) != 0 {
+				return "", s.errf(e, "IsNonZero arity")
+			}
+			return fmt.Sprintf("negb (fis0 K %s)", rv), nil
+		}
+		return "", s.errf(e, "unsupported boolean method %s", sel.Sel.Name)
+	}
+	return "", s.errf(e, "unsupported boolean expression")
+}
+
+// call handles `R.Op(args)` and `params.Op(dst, src)`; boolTarget != "" when the call's result is assigned.
+func (s *slp) call(c *ast.CallExpr, boolTarget string) error {
+	sel, ok := c.Fun.(*ast.SelectorExpr)
+	if !ok {
+		return s.errf(c, "unsupported call")
+	}
+	op := sel.Sel.Name
+	if id, ok := sel.X.(*ast.Ident); ok && s.paramObj[id.Name] {
+		tmpl, ok := s.kind.paramOps[op]
+		if !ok {
+			return s.errf(c, "unknown parameter operation %s", op)
+		}
+		if len(c.Args) != 2 || boolTarget != "" {
+			return s.errf(c, "parameter operation shape")
+		}
+		dst, err := s.loc(c.Args[0])
+		if err != nil {
+			return err
+		}
+		sl, err := s.loc(c.Args[1])
+		if err != nil {
+			return err
+		}
+		sv, err := s.read(c, sl)
+		if err != nil {
+			return err
+		}
+		s.write(dst, fmt.Sprintf(tmpl, sv))
+		return nil
+	}
+	dst, err := s.loc(sel.X)
+	if err != nil {
+		return err
+	}
+	argv := func(i int) (string, error) {
+		l, err := s.loc(c.Args[i])
+		if err != nil {
+			return "", err
+		}
+		return s.read(c, l)
+	}
+	want := func(n int) error {
+		if len(c.Args) != n {
+			return s.errf(c, "%s expects %d arguments", op, n)
+		}
+		return nil
+	}
+	if boolTarget != "" {
+		switch op {
+		case "Equal":
+			b, err := s.boolExpr(c)
+			if err != nil {
+				return err
+			}
+			s.writeBool(boolTarget, b)
+			return nil
+		case "Inv":
+			if err := want(1); err != nil {
+				return err
+			}
+			a, err := argv(0)
+			if err != nil {
+				return err
+			}
+			s.writeBool(boolTarget, fmt.Sprintf("negb (fis0 K %s)", a))
+			s.write(dst, fmt.Sprintf("finv K %s", a))
+			return nil
+		}
+		return s.errf(c, "unsupported boolean-valued operation %s", op)
+	}
+	switch op {
+	case "Add", "Sub", "Mul":
+		if err := want(2); err != nil {
+			return err
+		}
+		a, err := argv(0)
+		if err != nil {
+			return err
+		}
+		b, err := argv(1)
+		if err != nil {
+			return err
+		}
+		sym := map[string]string{"Add": "+", "Sub": "-", "Mul": "*"}[op]
+		s.write(dst, fmt.Sprintf("%s %s %s", a, sym, b))
+	case "Square", "Double", "Neg", "Set":
+		if err := want(1); err != nil {
+			return err
+		}
+		a, err := argv(0)
+		if err != nil {
+			return err
+		}
+		switch op {
+		case "Square":
+			s.write(dst, fmt.Sprintf("%s * %s", a, a))
+		case "Double":
+			s.write(dst, fmt.Sprintf("%s + %s", a, a))
+		case "Neg":
+			s.write(dst, fmt.Sprintf("- %s", a))
+		default:
+			s.write(dst, a)
+		}
+	case "SetZero":
+		if err := want(0); err != nil {
+			return err
+		}
+		s.write(dst, "f0 K")
+	case "SetOne":
+		if err := want(0); err != nil {
+			return err
+		}
+		s.write(dst, "f1 K")
+	case "Select", "CMove":
+		// Select(choice, z, nz): nz when choice is set, z otherwise
+		if err := want(3); err != nil {
+			return err
+		}
+		ch, err := s.boolExpr(c.Args[0])
+		if err != nil {
+			return err
+		}
+		z, err := argv(1)
+		if err != nil {
+			return err
+		}
+		nz, err := argv(2)
+		if err != nil {
+			return err
+		}
+		s.write(dst, fmt.Sprintf("if %s then %s else %s", ch, nz, z))
+	default:
+		return s.errf(c, "unsupported field operation %s", op)
+	}
+	return nil
+}
+
+func (s *slp) stmt(st ast.Stmt) error {
+	switch x := st.(type) {
+	case *ast.DeclStmt:
+		gd, ok := x.Decl.(*ast.GenDecl)
+		if !ok || gd.Tok != token.VAR {
+			return s.errf(st, "unsupported declaration")
+		}
+		for _, sp := range gd.Specs {
+			vs := sp.(*ast.ValueSpec)
+			if len(vs.Values) != 0 {
+				return s.errf(st, "initialised declaration")
+			}
+			tn := ""
+			if id, ok := vs.Type.(*ast.Ident); ok {
+				tn = id.Name
+			}
+			switch {
+			case contains(s.kind.fieldTy, tn):
+				for _, n := range vs.Names {
+					s.locals[n.Name] = true
+				}
+			case contains(s.kind.paramTy, tn):
+				for _, n := range vs.Names {
+					s.paramObj[n.Name] = true
+				}
+			default:
+				return s.errf(st, "declaration of unsupported type")
+			}
+		}
+		return nil
+	case *ast.ExprStmt:
+		c, ok := x.X.(*ast.CallExpr)
+		if !ok {
+			return s.errf(st, "unsupported expression statement")
+		}
+		return s.call(c, "")
+	case *ast.AssignStmt:
+		if len(x.Lhs) != 1 || len(x.Rhs) != 1 {
+			return s.errf(st, "unsupported assignment")
+		}
+		// p.X = *x3
+		if sel, ok := x.Lhs[0].(*ast.SelectorExpr); ok && x.Tok == token.ASSIGN {
+			id, ok := sel.X.(*ast.Ident)
+			star, ok2 := x.Rhs[0].(*ast.StarExpr)
+			if !ok || !ok2 || id.Name != s.recv || !contains(s.fields, sel.Sel.Name) {
+				return s.errf(st, "unsupported field assignment")
+			}
+			l, err := s.loc(star.X)
+			if err != nil {
+				return err
+			}
+			v, err := s.read(st, l)
+			if err != nil {
+				return err
+			}
+			s.write("fld:"+s.recv+"."+sel.Sel.Name, v)
+			return nil
+		}
+		lhs, ok := x.Lhs[0].(*ast.Ident)
+		if !ok {
+			return s.errf(st, "unsupported assignment target")
+		}
+		// alias definition  t := FP(&tf)
+		if x.Tok == token.DEFINE {
+			if c, ok := x.Rhs[0].(*ast.CallExpr); ok {
+				if id, ok := c.Fun.(*ast.Ident); ok && contains(s.kind.castOK, id.Name) {
+					l, err := s.loc(c)
+					if err != nil {
+						return err
+					}
+					s.alias[lhs.Name] = l
+					return nil
+				}
+			}
+		}
+		// ok = R.Equal(x) | ok = R.Inv(x) | ok := ...
+		if c, ok := x.Rhs[0].(*ast.CallExpr); ok {
+			if x.Tok == token.ASSIGN && lhs.Name != s.resultVar {
+				if _, known := s.benv[lhs.Name]; !known {
+					return s.errf(st, "assignment to an unknown boolean")
+				}
+			}
+			return s.call(c, lhs.Name)
+		}
+		return s.errf(st, "unsupported assignment")
+	case *ast.ReturnStmt:
+		if len(x.Results) == 0 {
+			if s.hasResult {
+				v, ok := s.benv[s.resultVar]
+				if !ok {
+					return s.errf(st, "named result is never assigned")
+				}
+				s.ret = v
+			}
+			return nil
+		}
+		if len(x.Results) != 1 {
+			return s.errf(st, "unsupported return")
+		}
+		b, err := s.boolExpr(x.Results[0])
+		if err != nil {
+			return err
+		}
+		s.ret = b
+		return nil
+	}
+	return s.errf(st, "unsupported statement")
+}
+
+func structFields(f *ast.File, name string) []string {
+	var out []string
+	ast.Inspect(f, func(n ast.Node) bool {
+		ts, ok := n.(*ast.TypeSpec)
+		if !ok || ts.Name.Name != name {
+			return true
+		}
+		if st, ok := ts.Type.(*ast.StructType); ok {
+			for _, fl := range st.Fields.List {
+				for _, nm := range fl.Names {
+					out = append(out, nm.Name)
+				}
+			}
+		}
+		return false
+	})
+	return out
+}
+
+func translateSLP(fset *token.FileSet, f *ast.File, k *slpKind, fname string) (string, string, error) {
+	fd := findMethod(f, k.typ, fname)
+	if fd == nil {
+		return "", "", fmt.Errorf("%s.%s: method not found", k.typ, fname)
+	}
+	s := &slp{fset: fset, kind: k, fname: fname, fields: structFields(f, k.typ),
+		isStruct: map[string]bool{}, isFP: map[string]bool{}, paramObj: map[string]bool{}, locals: map[string]bool{},
+		alias: map[string]string{}, env: map[string]string{}, benv: map[string]string{}, written: map[string]bool{},
+		wroteFP: map[string]bool{}, recvRead: map[string]bool{}, counter: map[string]int{}}
+	if len(s.fields) == 0 {
+		return "", "", fmt.Errorf("%s: struct fields not found", k.typ)
+	}
+	if fd.Recv == nil || len(fd.Recv.List) != 1 || len(fd.Recv.List[0].Names) != 1 {
+		return "", "", fmt.Errorf("%s.%s: unnamed receiver", k.typ, fname)
+	}
+	s.recv = fd.Recv.List[0].Names[0].Name
+	s.isStruct[s.recv] = true
+	for _, p := range fd.Type.Params.List {
+		tn := typeName(p.Type)
+		for _, n := range p.Names {
+			switch {
+			case tn == k.typ:
+				s.isStruct[n.Name] = true
+				s.structPar = append(s.structPar, n.Name)
+			case contains(k.castOK, tn):
+				s.isFP[n.Name] = true
+				s.fpPar = append(s.fpPar, n.Name)
+			default:
+				return "", "", s.errf(p, "unsupported parameter type")
+			}
+		}
+	}
+	for _, n := range append(append([]string{s.recv}, s.structPar...), s.fpPar...) {
+		if contains([]string{"a", "b", "d", "beta", "xi", "K", "F"}, n) {
+			return "", "", fmt.Errorf("%s.%s: parameter name %s collides with a section variable of the generated file", k.typ, fname, n)
+		}
+	}
+	if fd.Type.Results != nil {
+		if len(fd.Type.Results.List) != 1 {
+			return "", "", s.errf(fd.Type.Results, "unsupported results")
+		}
+		r := fd.Type.Results.List[0]
+		if src(fset, r.Type) != "ct.Bool" {
+			return "", "", s.errf(r, "unsupported result type")
+		}
+		s.hasResult = true
+		if len(r.Names) == 1 {
+			s.resultVar = r.Names[0].Name
+		}
+	}
+	for _, st := range fd.Body.List {
+		if err := s.stmt(st); err != nil {
+			return "", "", err
+		}
+	}
+	if s.hasResult && s.ret == "" {
+		return "", "", fmt.Errorf("%s.%s: no return value recorded", k.typ, fname)
+	}
+	for w := range s.written {
+		if strings.HasPrefix(w, "!") {
+			return "", "", fmt.Errorf("%s.%s: writes through an argument (%s)", k.typ, fname, w[1:])
+		}
+	}
+	// signature: struct parameters (all fields), FP parameters, then receiver fields that are read before written
+	var params []string
+	for _, sp := range s.structPar {
+		for _, fl := range s.fields {
+			params = append(params, sp+"_"+fl)
+		}
+	}
+	params = append(params, s.fpPar...)
+	for _, fl := range s.fields {
+		if s.recvRead[fl] {
+			params = append(params, s.recv+"_"+fl)
+		}
+	}
+	// result: boolean result, receiver fields written (declaration order), FP parameters written
+	var outs []string
+	var outNames []string
+	if s.hasResult {
+		outs = append(outs, s.ret)
+		outNames = append(outNames, "ok")
+	}
+	for _, fl := range s.fields {
+		if s.written[fl] {
+			outs = append(outs, s.env["fld:"+s.recv+"."+fl])
+			outNames = append(outNames, s.recv+"."+fl)
+		}
+	}
+	var fpw []string
+	for n := range s.wroteFP {
+		fpw = append(fpw, n)
+	}
+	sort.Slice(fpw, func(i, j int) bool {
+		return indexOf(s.fpPar, fpw[i]) < indexOf(s.fpPar, fpw[j])
+	})
+	for _, n := range fpw {
+		outs = append(outs, s.env["ptr:"+n])
+		outNames = append(outNames, "*"+n)
+	}
+	if len(outs) == 0 {
+		return "", "", fmt.Errorf("%s.%s: no observable output", k.typ, fname)
+	}
+	var b strings.Builder
+	fmt.Fprintf(&b, "  (* %s.%s — result: (%s) *)\n", k.typ, fname, strings.Join(outNames, ", "))
+	ps := ""
+	if len(params) > 0 {
+		ps = " (" + strings.Join(params, " ") + " : F)"
+	}
+	var tys []string
+	for i := range outs {
+		if s.hasResult && i == 0 {
+			tys = append(tys, "bool")
+		} else {
+			tys = append(tys, "F")
+		}
+	}
+	// the result type is written out: without it Coq infers a type that still carries the whole let chain
+	fmt.Fprintf(&b, "  Definition %s%s%s : %s :=\n", k.prefix, fname, ps, strings.Join(tys, " * "))
+	for _, l := range s.lets {
+		fmt.Fprintf(&b, "    %s\n", l)
+	}
+	fmt.Fprintf(&b, "    (%s).\n\n", strings.Join(outs, ", "))
+	return b.String(), hashText(src(fset, fd)), nil
+}
+
+func indexOf(xs []string, x string) int {
+	for i, y := range xs {
+		if x == y {
+			return i
+		}
+	}
+	return -1
+}
+
 func genFormulas(repo string) (string, map[string]string, error) {
-	return "(* GENERATED placeholder *)\n", map[string]string{}, nil
+	hashes := map[string]string{}
+	var out strings.Builder
+	out.WriteString("(* GENERATED by /verif/translator (formulas.go) from the straight-line field programs of\n")
+	for _, k := range slpKinds {
+		fmt.Fprintf(&out, "     %s  (%s)\n", k.file, strings.Join(k.funcs, " "))
+	}
+	out.WriteString("   — do not edit.  One `let` per source statement; names are <destination>_<write number>;\n" +
+		"   Select(c, z, nz) = if c then nz else z;  R.Inv(x) = (finv K x, x <> 0). *)\n")
+	out.WriteString("From Coq Require Import Bool.\nRequire Import V.base.Fld.\n\n")
+	out.WriteString("Section Formulas.\n  Context {F : Type} (K : fops F).\n")
+	out.WriteString("  Local Notation \"x + y\" := (fadd K x y).\n  Local Notation \"x * y\" := (fmul K x y).\n")
+	out.WriteString("  Local Notation \"x - y\" := (fsub K x y).\n  Local Notation \"- x\" := (fopp K x).\n\n")
+	for i := range slpKinds {
+		k := &slpKinds[i]
+		fset := token.NewFileSet()
+		f, err := parser.ParseFile(fset, filepath.Join(repo, k.file), nil, 0)
+		if err != nil {
+			return "", nil, err
+		}
+		fmt.Fprintf(&out, "  Section %s.\n  Variables %s.\n\n", k.section, k.vars)
+		for _, fn := range k.funcs {
+			def, h, err := translateSLP(fset, f, k, fn)
+			if err != nil {
+				return "", nil, err
+			}
+			out.WriteString(def)
+			hashes[k.typ+"."+fn] = h
+		}
+		fmt.Fprintf(&out, "  End %s.\n\n", k.section)
+	}
+	out.WriteString("End Formulas.\n")
+	return out.String(), hashes, nil
 }
 
 func init() { register("Formulas", genFormulas) }
